@@ -133,6 +133,9 @@ pub enum Op {
     DropHandle { h: u8 },
     Close { h: u8 },
     Observe { h: u8, what: Obs },
+    // ---- lock harness (C17): the internal lock through kanal::verif::Mutex
+    MLock { hold: u8 },
+    MTryLock { hold: u8 },
     // ---- environment
     Yield,
     AdvanceClock { us: u32 },
@@ -170,6 +173,8 @@ impl Op {
             Op::DropHandle { .. } => "drop_handle",
             Op::Close { .. } => "close",
             Op::Observe { .. } => "observe",
+            Op::MLock { .. } => "lock",
+            Op::MTryLock { .. } => "try_lock",
             Op::Yield => "yield",
             Op::AdvanceClock { .. } => "advance_clock",
         }
@@ -302,6 +307,9 @@ pub struct Case {
     /// main keeps its two root handles until all tasks are done (only in generators
     /// whose tasks never block indefinitely)
     pub main_keeps_roots: bool,
+    /// C17: the tasks contend on the internal lock instead of using a channel
+    #[serde(default)]
+    pub lock_harness: bool,
 }
 
 impl Case {
